@@ -23,7 +23,7 @@ Definition run (args : list bytes) : bytes :=
   let op := nth_arg args 0 in
   if is_op "match" op then
     out_outcome (match_ lev_total (nth_arg args 1) (nth_arg args 2)) ++ lit " T:" ++
-    match parse (nth_arg args 2) with Some t => out_toks t | None => lit "EXN:ParseException" end
+    match parse_string (nth_arg args 2) with Some t => out_toks t | None => lit "EXN:ParseException" end
   else if is_op "lev" op then
     match lev_model (nth_arg args 1) with
     | Some (LVal v) => out_pyval v
